@@ -88,6 +88,9 @@ SPEC = [
                 'DATA_VALUES_NEST_LEVEL_0', 'DATA_VALUES_NEST_LEVEL_1', 'DATA_VALUES_NEST_LEVEL_2',
                 'DATA_VALUES_NEST_LEVEL_4'],
      'funcs': {'process_embedded_query_expr': {'params': {'input_string': 'str'}}}},
+    # ---- w5-smallsrc: small self-contained functions --------------------------------------------
+    {'module': 'encoder', 'file': 'pybufrkit/encoder.py',
+     'funcs': {'nbits_for_uint': {'params': {'x': 'int'}}}},
 ]
 
 LEAN_KEYWORDS = set('''at from in do then else if fun end open instance structure where with match let have show by
@@ -585,7 +588,7 @@ class ExprCompiler(object):
 
     def e_Subscript(self, e):
         if isinstance(e.slice, ast.Slice):
-            self.bad(e, 'slicing is not in the table')
+            return self.small_slice(e)          # w5-smallsrc block below
         a, i = self.expr(e.value), self.expr(e.slice)
         ka = self.kind(a, e.value)
         if ka == 'dict':
@@ -662,6 +665,9 @@ class ExprCompiler(object):
                     self.bad(e, 'recursive call with a different number of arguments')
                 args = [self.coerce(self.to_int(self.expr(a)), t, e) for a, t in zip(e.args, self.params.values())]
                 return self.lift(args, lambda c: '(%s fuel %s)' % (self.lean_name, ' '.join(c)), self.ret_type, result_raises=True)
+            r = self.small_call_name(e, f)      # w5-smallsrc block below
+            if r is not None:
+                return r
             self.bad(e, 'call of %s is not in the table' % f.id)
         if isinstance(f, ast.Attribute):
             if f.attr == 'format' and isinstance(f.value, ast.Constant) and isinstance(f.value.value, str):
@@ -674,8 +680,69 @@ class ExprCompiler(object):
                 return self.lift([recv, xs], lambda c: '(Py.join %s %s)' % (c[0], c[1]), STR)
             if k == 'str' and f.attr in ('strip', 'lstrip', 'rstrip') and not e.args and not e.keywords:
                 return self.lift([recv], lambda c: '(Py.%s %s)' % (f.attr, c[0]), STR)
+            r = self.small_call_method(e, f, recv, k)   # w5-smallsrc block below
+            if r is not None:
+                return r
             self.bad(e, 'method call .%s on a %s is not in the table' % (f.attr, k))
         self.bad(e, 'call form is not in the table')
+
+    # ---------------------------------------------------------------------------------------------
+    # w5-smallsrc: constructs of the small self-contained functions (notes/Tie.md, "Constructs added for
+    # the small functions").  Each handler returns an Ex, or None when the form is not one of its own.
+    def small_slice(self, e):
+        """`xs[a:b]`, `xs[a:]`, `xs[:b]`, `xs[:]` on str / bytes / list (no step)"""
+        sl = e.slice
+        if sl.step is not None:
+            self.bad(e, 'slice with a step is not in the table')
+        a = self.expr(e.value)
+        ka = self.kind(a, e.value)
+        if ka not in ('str', 'bytes', 'list'):
+            self.bad(e, 'slice of a %s' % ka)
+        lo = self.expr(sl.lower) if sl.lower is not None else None
+        hi = self.expr(sl.upper) if sl.upper is not None else None
+        for b, nd in ((lo, sl.lower), (hi, sl.upper)):
+            if b is not None and self.kind(b, nd) not in ('int', 'nat'):
+                self.bad(e, 'slice bound of type %s' % self.kind(b, nd))
+        if hi is None and lo is not None and prune(lo.ty) == NAT:
+            # xs[n:] with n known to be non-negative: drop the first n items
+            return self.lift([a, lo], lambda c: '(List.drop %s %s)' % (c[1], c[0]), a.ty)
+        parts = [a] + [self.to_int(b) for b in (lo, hi) if b is not None]
+
+        def build(c):
+            i = 1
+            los = his = 'none'
+            if lo is not None:
+                los = '(some %s)' % c[i]
+                i += 1
+            if hi is not None:
+                his = '(some %s)' % c[i]
+            return '(Py.slice %s %s %s)' % (c[0], los, his)
+        return self.lift(parts, build, a.ty)
+
+    def one_char_literal(self, node):
+        if isinstance(node, ast.Constant) and isinstance(node.value, str) and len(node.value) == 1:
+            try:
+                return lean_char(node.value)
+            except ValueError:
+                return None
+        return None
+
+    def small_call_name(self, e, f):
+        if f.id == 'bin' and len(e.args) == 1 and not e.keywords:
+            a = self.expr(e.args[0])
+            if self.kind(a, e) not in ('int', 'nat'):
+                self.bad(e, 'bin() of a %s' % self.kind(a, e))
+            a = self.to_int(a)
+            return self.lift([a], lambda c: '(Py.bin %s)' % c[0], STR)
+        return None
+
+    def small_call_method(self, e, f, recv, k):
+        if k == 'str' and f.attr == 'count' and len(e.args) == 1 and not e.keywords:
+            ch = self.one_char_literal(e.args[0])
+            if ch is None:
+                self.bad(e, 'str.count() of something that is not a one-character literal')
+            return self.lift([recv], lambda c: '(List.count %s %s)' % (ch, c[0]), NAT)
+        return None
 
     def format_call(self, e, fmt):
         """'literal {} {:06d}'.format(a, b): expanded at translation time"""
